@@ -567,6 +567,20 @@ func (e *Env) call(x *Expr) TV {
 			}
 		}
 		sfail("len of %s", a.T.Sort)
+	case "lookup":
+		// lookup(m, k): the Go expression m[k] of a map (zero value when k is absent)
+		a := e.Tr(x.Args[0])
+		k := e.Tr(x.Args[1])
+		if a.Ty == nil {
+			sfail("lookup needs a Go map")
+		}
+		mt, ok := a.Ty.Underlying().(*types.Map)
+		if !ok {
+			sfail("lookup needs a Go map")
+		}
+		mv := e.x.mapSel(e.st, mt, a.T)
+		e.cands.addKey(k.T)
+		return TV{Ite(And(Not(Eq(a.T, IntLit(0))), Select(MapHas(mv), k.T)), Select(MapVal(mv), k.T), e.x.tm.Zero(mt.Elem())), mt.Elem()}
 	case "upd":
 		// upd(a, k, v): the ghost array a with a[k] = v
 		a := e.Tr(x.Args[0])
@@ -931,7 +945,9 @@ func (e *Env) quant(x *Expr) TV {
 			}
 		}
 		if len(inner) > 0 {
-			if x.Name == "forall" && !e.assume {
+			if !e.assume {
+				// goal side: the facts are valid for every value of the bound variables, so they may be
+				// assumed under a universal and under an existential alike
 				body = Implies(And(inner...), body)
 			} else {
 				body = And(append(inner, body)...)
